@@ -15,7 +15,7 @@ def classify(inp, obs, tags):
 PROP = dict(
     engines=[dict(
         name="lazy", classify=classify,
-        quick=dict(cases=1600, shards=8, profiles=["debug", "release"]),
+        quick=dict(cases=1200, shards=12, profiles=["debug", "release"]),
         thorough=dict(cases=48000, shards=16, profiles=["debug", "release"]),
     )],
     rule="one case = one lazy vector (LazyVecFrom1/2/3 with counting/non-counting sources, LazyDeltaVec<DeltaSub> over "
@@ -23,19 +23,22 @@ PROP = dict(
          "(lengths 0..40, 3% around 4096/8192; unequal lengths; sources grown and mappings replaced mid-history), "
          "followed by 14-42 reads drawn over every ReadableVec method (ranges empty/reversed/out of bounds/inside/whole/"
          "usize::MAX, sorted index lists with duplicates and out-of-range tails, signed ranges, early-exit try_fold, cursor); "
-         "mappings: sliding windows incl. empty, zeros, random monotone, calendar blocks, running ahead of the index (6%), "
-         "first-index lists with duplicates, past the source end (12%), non-monotone (3%); non-trivial = some read "
+         "mappings: sliding windows incl. empty, zeros, random monotone, calendar blocks, running ahead of the index (6%, "
+         "outside the property: tagged class:start-after-index, compared with the model only), "
+         "first-index lists with duplicates, past the source end (12%), non-monotone (3%); a non-governing FromN source "
+         "shorter than len() is likewise tagged only; non-trivial = some read "
          "returned a value and >= 3 distinct methods were used; distinct = distinct input line",
     trusted_base=[
         "the stored sources (clean BytesVec/PcoVec read-only clones) are modelled by their contract only: len, clamped "
         "range read, bounds-checked point read, sorted read skipping out-of-range positions (Lazy/LazyBase.v, Section Source); "
         "validated differentially against real BytesVec and PcoVec sources",
-        "sort_unstable_by_key is modelled as an arbitrary sorted permutation in the theorems and as insertion sort in the executable model",
+        "sort_unstable_by_key is an arbitrary permutation of the reads in the theorem (C15_delta_sorted_any_order) and insertion sort in the executable model",
         "tools/gen_lazy.py regenerates coq/Gen/LazyConsts.v (READ_CHUNK_SIZE) from /repo",
     ],
     assumptions=[
         "element types u64/i64/u32 (DeltaChange: u32 -> f64, exact); float-valued formulas (DeltaRate, DeltaAvg) are out of scope",
-        "an allocation request that is huge but below isize::MAX (collect_range with `to` around 2^40) aborts the process and is not exercised",
+        "LazyDeltaVec: a window start beyond index+1 (DeltaSub) / beyond index (DeltaChange) is not a window and is outside the property (hypothesis wf_starts)",
+        "LazyVecFromN: a source that does not govern the length is assumed to cover it (otherwise reads stop at the shortest source while len() reports the governing length)",
     ],
 )
 
@@ -49,9 +52,10 @@ TEXT = dict(
     design_ref="DESIGN.md section 4, C15",
     technique="Coq proof that every read path of the lazy-vector models equals the defining formula + extracted-model differential",
     text=("Proof: Coq theorems C15_* (Props/C15.v) over executable transcriptions of LazyVecFrom1/2/3, LazyDeltaVec "
-          "(DeltaSub, DeltaChange) and LazyAggVec<Sparse>: for all source contents and lengths, all well-formed mappings, all "
-          "ranges and index lists, every read path returns the defining formula over the in-range indices and does not panic; "
-          "the configurations where the faithful model refutes this are kept as *_full definitions with *_refuted witnesses. "
+          "(DeltaSub, DeltaChange) and LazyAggVec<Sparse>: for all source contents and lengths, all monotone window-start mappings "
+          "with start <= index+1 (any length) and ALL first-index mappings, all ranges and index lists, every read path (range reads, "
+          "early-exit folds, point reads, sorted reads under every outcome of the unstable sort, cursor reads) returns the defining "
+          "formula over the in-range indices and does not panic. "
           "The models are validated against the real vectors over BytesVec/PcoVec sources (debug and release builds)."),
     note=("Trusted: Coq kernel; extraction and the OCaml driver; the Rust harness; the contract of the stored sources "
           "(C08's subject). The Rust code is modelled, not verified: the tie is differential agreement on generated inputs."),
